@@ -9,7 +9,7 @@ import os
 from ..engine import VERIF, load_json
 from ..facts import site
 from ..symx import cshow, paths_of, tshow
-from ..terms import subterms  # noqa: E402
+from ..terms import opt_polarity, subterms  # noqa: E402
 from ..terms import (display_norm, flatten_fmt, is_call, pat_is_catchall, pat_is_none, pat_is_some, pat_some_lit, same,
                      term_callees)
 
@@ -120,7 +120,7 @@ def check_util_target(run, U, rule="R-SCHEMETABLE"):
                     src = [x for x in subterms(a) if x[0] == "field" and x[2] == "uri"]
                     run.ob(rule, "%s: the command's uri is parsed and passed on unchanged" % path.split("::")[-1], bool(src) and names <= URI_PARSE_OK,
                            "new_client receives %s" % tshow(a)[:120], site(body, t[3]), key="%s|%s|target-arg" % (rule, path))
-    run.floor(rule, m, 6, "new_client call sites in ipputil")
+    run.floor(rule, m, 1, "new_client call sites in ipputil")
 
 
 def check(run, views, tier):
@@ -170,7 +170,11 @@ def check(run, views, tier):
                        "match Some/None); conditions: %s" % " && ".join(cshow(c) for c in p.conds), site(b),
                        key="R-SCHEMETABLE|%s|scheme %s|unrecognised-port-test" % (FN, scheme))
                 continue
-            # expected normal form:  "<hs>://" A [":<port>"] PQ
+            # expected normal form:  "<hs>://" A [":<port>"] PQ   (PQ is the empty text on a path that assumes there is no path-and-query)
+            no_pq = any(c[0] == "match" and is_call(c[1], "http::Uri::path_and_query") and opt_polarity(c) is False for c in p.conds)
+            out = [x for x in out if not (x[0] == "s" and x[1] == "")]
+            if no_pq and len([x for x in out if x[0] == "a"]) == 1:
+                out = out + [("a", ("call", "http::Uri::path_and_query", [("var", "uri")], {}))]
             atoms = [x for x in out if x[0] == "a"]
             texts = [x[1] for x in out if x[0] == "s"]
             shape_ok = len(out) >= 3 and out[0][0] == "s" and out[0][1].endswith("://") and len(atoms) == 2
